@@ -110,6 +110,11 @@ pub fn pd_moves(d: &Diagram, with_r1: bool) -> Vec<(String, Diagram)> {
     out
 }
 
+/// every PD-level Reidemeister II move (parallel and antiparallel, any two edges of a common face)
+pub fn pd_r2_moves(d: &Diagram) -> Vec<(String, Diagram)> {
+    d.r2_moves().into_iter().enumerate().map(|(k, d2)| (format!("R2#{k}"), d2)).collect()
+}
+
 /// all single braid-level moves from (strands, word): R2 (insert a cancelling pair anywhere),
 /// far commutation, R3 (braid relation in all valid sign patterns), conjugation (rotation),
 /// Markov stabilisation (+/-).  Only moves whose result has no free loop are returned.
